@@ -49,6 +49,7 @@ import (
 const (
 	unit        = 100 * time.Millisecond // one model time unit (virtual)
 	arriveBound = 20 * time.Second       // real time: a released goroutine must reach its next gate
+	endBound    = 30 * time.Second       // real time: tear-down of one behaviour
 )
 
 // blockBound is how long (real time) a goroutine must stay away from its next
@@ -747,33 +748,60 @@ func (s *stepper) End() {
 			th.resume <- struct{}{}
 		}
 	}
+	// Every remaining goroutine is drained concurrently: one may be blocked in Lock() behind
+	// another that still sits in a gate.
+	var pendingThr []*thr
 	for _, th := range w.all {
 		if !th.launched || th.finished {
 			continue
 		}
-		// goroutines that raced past `gated` may still sit in a gate: drain and release them
-	loop:
-		for {
-			select {
-			case <-th.arrive:
-				th.resume <- struct{}{}
-			case <-th.done:
-				th.finished = true
-				break loop
-			case <-realAfter(3 * time.Second):
-				w.leaked = true
-				leakedAny.Store(true)
-				break loop
-			}
+		if th.stuck {
+			// already reported as blocked for good inside the code under test
+			w.leaked = true
+			leakedAny.Store(true)
+			continue
 		}
+		pendingThr = append(pendingThr, th)
+	}
+	allGone := make(chan struct{})
+	var left atomic.Int32
+	left.Store(int32(len(pendingThr)))
+	if len(pendingThr) == 0 {
+		close(allGone)
+	}
+	for _, th := range pendingThr {
+		go func(th *thr) {
+			for {
+				select {
+				case <-th.arrive:
+					th.resume <- struct{}{}
+				case <-th.done:
+					if left.Add(-1) == 0 {
+						close(allGone)
+					}
+					return
+				}
+			}
+		}(th)
+	}
+	select {
+	case <-allGone:
+		for _, th := range pendingThr {
+			th.finished = true
+		}
+	case <-realAfter(endBound):
+		w.leaked = true
+		leakedAny.Store(true)
+		fmt.Fprintf(os.Stderr, "sticky driver: %d goroutine(s) did not finish at tear-down; behaviour tail %v\n", left.Load(), tailOf(s.b))
 	}
 	for _, wk := range w.workers {
 		done := make(chan struct{})
 		go func() { wk.dh.Shutdown(); close(done) }()
 		select {
 		case <-done:
-		case <-realAfter(3 * time.Second):
+		case <-realAfter(endBound):
 			leakedAny.Store(true)
+			fmt.Fprintf(os.Stderr, "sticky driver: Shutdown of %s did not return at tear-down; behaviour tail %v\n", wk.name, tailOf(s.b))
 		}
 	}
 	vgirpc.SetVerifHook(nil)
@@ -781,6 +809,14 @@ func (s *stepper) End() {
 }
 
 var leakedAny atomic.Bool
+
+func tailOf(b replay.Behaviour) []string {
+	out := []string{}
+	for i := max(0, len(b)-12); i < len(b); i++ {
+		out = append(out, fmt.Sprintf("%s/%v", b[i].A, b[i].T))
+	}
+	return out
+}
 
 func strs(l []any) []string {
 	out := make([]string, 0, len(l))
